@@ -61,17 +61,21 @@ PROPS = {
     "C06": dict(level="proof", extra=[extras.refs_validation], canaries=[(CANARY, "canary:filter-yields-before-test")], trusted_base=TB_COMMON,
                 explanation="a fault answered at every pull/call/op: same events up to the fault, the very same exception object propagates"),
     "C07": dict(level="proof", canaries=[(CANARY, "canary:filter-yields-before-test")],
-                trusted_base=TB_COMMON + ["specification BorrowSpec (contracts/refs/ref_asynctools.py) written from the property", "athrow/asend through the handle are forwarded by design and not part of the property's operation list",
+                trusted_base=TB_COMMON + ["specification BorrowSpec (contracts/refs/ref_asynctools.py) written from the property", "athrow through an open handle is forwarded by design (covered: athrow(B)); asend through an open borrowed handle is not exercised",
                                           "composition with tools: every tool only pulls from and finally closes its inputs (their C04/C01 contracts); one closing tool (enumerate) is interpreted for real"],
-                explanation="class invariant + frame condition of _BorrowedAsyncIterator under arbitrary histories of {next(B), next(U), close(B), close(iter(B)), tool(B), re-borrow, next/close(B2)}: same items as the specification, the underlying iterator is never closed (close counter stays 0 after every operation), a closed handle pulls nothing"),
+                explanation="class invariant + frame condition of _BorrowedAsyncIterator under arbitrary histories of {next(B), next(U), close(B), close(iter(B)), tool(B), athrow(B), re-borrow, next/close(B2)}: same items as the specification, the underlying iterator is never closed (close counter stays 0 after every operation), a closed handle pulls nothing; the scoped_iter jobs (handles ended through _aclose_wrapper, dead handles advanced by next/asend/athrow) count for C07 as well"),
     "C08": dict(level="proof", canaries=[(CANARY, "canary:filter-yields-before-test")],
                 trusted_base=TB_COMMON + ["specification ScopeSpec/ScopedSpec (contracts/refs/ref_asynctools.py) written from the property", "nesting explored to depth 2 (an inner scope's iterator is the outer handle, whose aclose is a no-op: deeper nesting repeats the same step)"],
-                explanation="histories inside the block (next, close, closing tool, nested scope enter/exit) and both exit kinds (normal / BaseException as for cancellation): the underlying iterator's close counter is 0 after every operation inside the block, exactly 1 after leaving the outermost scope, and the handle yields nothing afterwards"),
+                explanation="histories inside the block (next, asend, close, closing tool, nested scope enter/exit, the dead handle of an ended nested scope advanced by next/asend/athrow) and both exit kinds (normal / BaseException as for cancellation), the underlying iterator's own aclose possibly failing or being cancelled: the underlying iterator's close counter is 0 after every operation inside the block, exactly 1 after leaving the outermost scope, and the handle yields nothing afterwards by next/asend/athrow"),
     "C09": dict(level="proof", canaries=[(CANARY, "canary:filter-yields-before-test")], extra=[extras.seq_suffix_lemma, extras.tee_schedules],
                 trusted_base=TB_COMMON + ["ghost state: hist = sequence of items the source answered, y_p = number of items child p yielded",
                                           "deque/list contract (append, popleft, pop(idx), identity search) of the interpreter; z3 sequence theory with cvc5 --strings-exp as second back end for queries z3 leaves unknown",
-                                          "cooperative scheduling: children interleave at yields (consumer loop) and, with a lock, at the lock and inside the source"],
-                explanation="Owicki-Gries invariant over the real tee_peer/_TeePeer/Tee code: for every registered child buffer_p = hist[y_p:]; each advance yields hist[y_p]; a child ends only after the full sequence; finished/closed children are unregistered (stop buffering) and the source is closed exactly when no child is left; any interleaving of next/close operations of the children (consumer loop = cut point) and any stream length"),
+                                          "cooperative scheduling: children interleave at yields (consumer loop) and, with a lock, at the lock (enter and release) and inside the source",
+                                          "sequence lemmas h[y:]++e = (h++e)[y:], (h[y:])[1:] = h[y+1:], (h[y:])[0] = h[y]: proved once per run by z3 and cvc5 (lemma/seq-suffix-*), assumed as ground instances",
+                                          "user lock contract: __aenter__ returns holding the lock or is cancelled, __aexit__ releases and may suspend after releasing; siblings fetch only while the lock is free and the source has not ended",
+                                          "interference by the siblings at a suspension point = one sibling doing an arbitrary amount of yielding/fetching (n=2); siblings being closed meanwhile and cancellation combined with interference only in the thorough-only combined job (undecided within its budget: bounded native schedule exploration stands in)"],
+                bounded_note=[{"what": "schedules of the real tee (replay/schedules.py tee)", "bound": "2 children (thorough: 2..3), source lengths 0..2 (0..3), suspending source, with/without lock, children closing after j items, one cancellation: all schedules depth first up to a per-scenario cap; label bounded"}],
+                explanation="Owicki-Gries invariant over the real tee_peer/_TeePeer/Tee code: for every registered child buffer_p = hist[y_p:]; each advance yields hist[y_p]; a child ends only after the full sequence; finished/closed children are unregistered (stop buffering) and the source is closed exactly when no child is left; any interleaving of next/close operations of the children (consumer loop = cut point) and any stream length; with a user lock: the invariant proved at every suspension point inside an advance (waiting for the lock, releasing it, inside the source) before the siblings act on the shared state, the lock free whenever every child is suspended at its yield, the source advanced only under the lock"),
     "C10": dict(level="proof", canaries=[(CANARY, "canary:max-last-of-ties")], extra=[extras.callkey_partition, extras.refs_validation, extras.lru_methods],
                 trusted_base=TB_COMMON + ["abstract LRU view contracts/refs/ref_lru.py = functools.lru_cache (written from Lib/functools.py, validated differentially)",
                                           "dict / OrderedDict contract of pyvc/odmodel.py (insertion order, move_to_end, popitem(last=False), lookup by key equality)",
@@ -83,14 +87,16 @@ PROPS = {
                 trusted_base=TB_COMMON + ["cooperative scheduling: tasks interleave only at the await of the wrapped function (the only suspension point in __call__; C17 effect typing)",
                                           "rely = guarantee = the shared invariant I: at the suspension point the shared state (store, hits, misses, ghost counters) is replaced by ANY state satisfying I; the store is havocked to 0..2 entries of fresh patterns (the code after the await only distinguishes `key in cache` and `len >= maxsize`)",
                                           "dict / OrderedDict contract of pyvc/odmodel.py; CallKey.from_call replaced by its contract as in C10"],
-                bounded_note=[{"what": "store size visible to the resumed segment", "bound": "interference leaves 0, 1 or 2 entries (symbolic patterns, symbolic maxsize >= 1 or None)"}],
+                bounded_note=[{"what": "store size visible to the resumed segment", "bound": "interference leaves 0, 1 or 2 entries (symbolic patterns, symbolic maxsize >= 1 or None)"},
+                              {"what": "schedules of the real lru_cache (replay/schedules.py lru)", "bound": "2 (thorough: 2..3) calling tasks with 1..2 (1..3) calls over up to 3 keys, maxsize None/1/2, one failing invocation, one interleaved cache_clear/cache_discard, one cancellation; label bounded"}],
                 explanation="Owicki-Gries / rely-guarantee at the suspension point of __call__: the invariant I = {hits+misses = calls started, misses = invocations of the wrapped function, entries <= maxsize, every stored value was produced for its pattern, patterns distinct} is proved at the suspension (end of segment S1), after the resumed segment for every outcome (value, exception, cancellation) from an arbitrary I-state, and after cache_clear/cache_discard/cache_info; every returned value was produced for an equal pattern. No schedule is enumerated: any interleaving is a sequence of such segments"),
     "C12": dict(level="proof", canaries=[(CANARY, "canary:max-last-of-ties")], extra=[extras.cached_property_schedules],
                 trusted_base=TB_COMMON + ["specification contracts/refs/ref_cached_property.py written from the property (slot = absent / placeholder / value)",
                                           "Python's attribute lookup: an instance-dict entry shadows the non-data descriptor; `del instance.attr` removes the entry",
                                           "user lock contract: __aenter__ returns only when unheld and then holds, __aexit__ releases; both may suspend",
                                           "cooperative scheduling: tasks interleave only at the lock's enter/exit and inside the getter (C17 effect typing)"],
-                bounded_note=[{"what": "interference per awaiter", "bound": "at most two interfering changes of the slot (each an arbitrary allowed state: deleted / new placeholder / value returned by another run) during one await; more changes repeat the same restart step"}],
+                bounded_note=[{"what": "interference per awaiter", "bound": "at most two interfering changes of the slot (each an arbitrary allowed state: deleted / new placeholder / value returned by another run) during one await; more changes repeat the same restart step"},
+                              {"what": "schedules of the real cached_property (replay/schedules.py cached_property)", "bound": "2..3 (thorough: 2..4) awaiting tasks, getter suspending 1..2 times, with/without lock, failing first run, deleting task, one cancellation, awaitable getter results, a placeholder reused after del; label bounded"}],
                 explanation="(a) sequential: every history over {access, await the placeholder later, access+await, del, failing getter, second instance} against the slot specification (consumer loop = cut point: unbounded histories); (b) concurrent, with and without lock: rely-guarantee at every suspension point of _await_impl - the slot becomes any state the invariant allows; obligations: every awaiter receives a value some getter run returned, the lock is released on every exit (value, exception, cancellation), with a lock the getter starts only under the lock and never after a run for the same placeholder completed"),
     "C13": dict(level="proof", canaries=[(CANARY, "canary:filter-yields-before-test")],
                 trusted_base=TB_COMMON + ["reference = contextlib._AsyncGeneratorContextManager of the installed CPython, extracted mechanically on demand (tools/extract_refs.py, drift-checked on every run) and rendered synchronous by fixed textual rules",
@@ -105,6 +111,7 @@ PROPS = {
     "C15": dict(level="proof", canaries=[(CANARY, "canary:filter-yields-before-test")], extra=[extras.decorator_schedules],
                 trusted_base=TB_COMMON + ["specification contracts/refs/ref_contextlib_spec.py written from the property; async-with semantics A2",
                                           "non-interference of concurrent calls follows from the per-call events: each call of a generator-based manager performs its own Call(genfunc) and drives only that generator object (event-match on object identity), and the decorator object is not written (only objects allocated by the call are)"],
+                bounded_note=[{"what": "overlapping and recursive calls on the real code (replay/schedules.py decorator)", "bound": "1..3 overlapping calls of a decorated coroutine function, generator-based and class-based managers, suspension points in enter/body/exit, raising bodies, suppressing managers, direct recursion, one cancellation; label bounded"}],
                 explanation="a decorated call against the specification, for generator-based managers (fresh generator per call: the generator function is called once per call and only that generator is resumed/thrown into) and class-based ContextDecorator managers: enter before the body, exit after it with the body's exception (incl. BaseException/cancellation at every suspension), result/exception passed through unless suppressed"),
     "C16": dict(level="proof", extra=[extras.refs_validation], canaries=[(CANARY, "canary:filter-yields-before-test")], trusted_base=TB_COMMON + ["reference class groupby/_grouper = transcription of CPython's groupbyobject/_grouperobject (validated differentially)", "one stale group handle represents all stale handles (their behaviour depends only on not being the current group)"],
                 explanation="data structure against abstract view: GroupBy/_Grouper operations vs the transcribed itertools.groupby under an arbitrary history of {advance groupby, advance current group, advance stale group}; the consumer loop is a cut point, so histories and inputs are unbounded"),
@@ -118,6 +125,7 @@ PROPS = {
     "C20": dict(level="proof", canaries=[(CANARY, "canary:filter-yields-before-test")], extra=[extras.retention],
                 trusted_base=TB_COMMON + ["CPython frees an object when its last reference disappears; evaluation-stack temporaries do not outlive a statement; frame locals and containers reachable from them are the only roots a tool holds (generator-finaliser / GC effects not modelled)",
                                           "documented accumulators are exempt: cycle, sorted, list/tuple/set/dict builders; tee retains hist[min y_p:] = the lead (its invariant is proved under C09)"],
+                bounded_note=[{"what": "nlargest/nsmallest window, containers of sub-iterators (chain.from_iterable), and every other tool once more natively (replay/retention.py)", "bound": "streams of 60 (thorough: 60 and 400) weakly referenced items with distinct / all tied / descending keys, alive items counted after every step against small-constant-per-source + documented window; label bounded"}],
                 explanation="retain obligations at every loop head of every streaming tool and single-pass aggregation (each iteration passes one): the item-valued locals are a fixed finite set (count reported) and every container of items obeys the declared window as a loop invariant (batched: n; others: no symbolic-length container at all); for tee: every buffer is hist[y_p:] and nothing is buffered for a finished child"),
     "C18": dict(level="proof", canaries=[(CANARY, "canary:enumerate-leaks-source")], trusted_base=TB_COMMON,
                 explanation="cancellation (BaseException thrown in at every suspension point): same exception propagates, sources released"),
